@@ -21,7 +21,7 @@ RULE = (
 
 PARAMS = {
     'quick': dict(full=0, dense=5, light=60, mutations=3, double=8, sepsubst=3, sepsubst_rand=2, near=3),
-    'thorough': dict(full=10, dense=40, light=400, mutations=10, double=60, sepsubst=12, sepsubst_rand=6, near=16),
+    'thorough': dict(full=14, dense=50, light=400, mutations=12, double=80, sepsubst=20, sepsubst_rand=6, near=30),
 }
 EXPECT = 'validate(v, **o) == v and v == v.strip() for v = validate(x, **o)'
 
